@@ -241,6 +241,15 @@ class ContractMixin:
         from .symex import EngineError
         if self.dry:
             return
+        pf = getattr(self, "prop_filter", None)
+        if pf and kind in ("ensures", "raises"):
+            # a postcondition tagged with other properties only (e.g. C08.rollback inside a function shared with C09)
+            # is not an obligation of this property's check; untagged clauses and loop invariants always are
+            tail = cname.split(".", 1)[1] if kind == "raises" and "." in cname else cname
+            head = tail.split(".")[0]
+            tags = [t for t in head.split("+") if len(t) >= 3 and t[0] == "C" and t[1:].isdigit()]
+            if tags and pf not in tags:
+                return
         try:
             goal = self.spec_bool(text, st, fr, "assert", extra)
         except EngineError as e:
